@@ -45,6 +45,7 @@ type ipState struct {
 	okSite ssa.Instruction // call site (in ctx.Fn) whose callee returned a constant nil error
 	st     string          // client path state (e.g. the lockset)
 	fx     facts           // nil-ness of error values known on this path
+	ix     string          // concrete values of the loop indices of table loops (loops over a small literal slice), see tableloops.go
 }
 
 type ipKey struct {
@@ -54,6 +55,7 @@ type ipKey struct {
 	okSite ssa.Instruction
 	st     string
 	fx     facts
+	ix     string
 }
 
 // IPWalk explores the interprocedural graph obtained by cloning module callees by call string.
@@ -74,6 +76,8 @@ type IPWalk struct {
 	States map[Node]map[string]bool
 	// RootSucc: a Return of the entry function was reached on a path on which its error result is not known to be non-nil
 	RootSucc map[Node]bool
+	// RootSuccStates: the client path states of those paths (when Transfer is set)
+	RootSuccStates map[Node]map[string]bool
 
 	seen    map[ipKey]bool
 	parent  map[ipKey]ipKey
@@ -185,7 +189,17 @@ func paramIndex(p *ssa.Parameter) int {
 }
 
 func inModule(f *ssa.Function) bool {
-	return f != nil && f.Pkg != nil && strings.HasPrefix(f.Pkg.Pkg.Path(), modPath) && f.Blocks != nil
+	if f == nil || f.Blocks == nil {
+		return false
+	}
+	if f.Pkg != nil {
+		return strings.HasPrefix(f.Pkg.Pkg.Path(), modPath)
+	}
+	// a bound-method wrapper (db.writeMeta used as a value) of a module method
+	if strings.HasPrefix(f.Synthetic, "bound method wrapper") && f.Object() != nil && f.Object().Pkg() != nil {
+		return strings.HasPrefix(f.Object().Pkg().Path(), modPath)
+	}
+	return false
 }
 
 // Run explores from the entry of fn (starts == nil) or from just after the given nodes.
@@ -199,12 +213,13 @@ func (w *IPWalk) Run(entry *Ctx, starts []Node) {
 	w.firstKey = map[Node]ipKey{}
 	w.States = map[Node]map[string]bool{}
 	w.RootSucc = map[Node]bool{}
+	w.RootSuccStates = map[Node]map[string]bool{}
 	var work []ipState
 	push := func(from ipKey, s ipState) {
 		if s.i >= len(s.b.Instrs) {
 			return
 		}
-		k := ipKey{s.ctx, s.b.Instrs[s.i], s.failed, s.okSite, s.st, s.fx}
+		k := ipKey{s.ctx, s.b.Instrs[s.i], s.failed, s.okSite, s.st, s.fx, s.ix}
 		if w.seen[k] {
 			return
 		}
@@ -228,7 +243,7 @@ func (w *IPWalk) Run(entry *Ctx, starts []Node) {
 						bb := rd.Block()
 						for i, x := range bb.Instrs {
 							if x == ssa.Instruction(rd) {
-								push(ipKey{n.Ctx, n.In, nil, nil, "", ""}, ipState{ctx: n.Ctx, b: bb, i: i + 1, st: w.Init})
+								push(ipKey{n.Ctx, n.In, nil, nil, "", "", ""}, ipState{ctx: n.Ctx, b: bb, i: i + 1, st: w.Init})
 							}
 						}
 					}
@@ -239,7 +254,7 @@ func (w *IPWalk) Run(entry *Ctx, starts []Node) {
 		b := n.In.Block()
 		for i, in := range b.Instrs {
 			if in == n.In {
-				from := ipKey{n.Ctx, n.In, nil, nil, "", ""}
+				from := ipKey{n.Ctx, n.In, nil, nil, "", "", ""}
 				st0 := ipState{ctx: n.Ctx, b: b, i: i}
 				if w.StartFailed {
 					// explore what follows when the call at the start node returned an error
@@ -254,7 +269,7 @@ func (w *IPWalk) Run(entry *Ctx, starts []Node) {
 		s := work[len(work)-1]
 		work = work[:len(work)-1]
 		in := s.b.Instrs[s.i]
-		key := ipKey{s.ctx, in, s.failed, s.okSite, s.st, s.fx}
+		key := ipKey{s.ctx, in, s.failed, s.okSite, s.st, s.fx, s.ix}
 		n := Node{s.ctx, in}
 		if !w.Reached[n] {
 			w.Reached[n] = true
@@ -281,6 +296,12 @@ func (w *IPWalk) Run(entry *Ctx, starts []Node) {
 			}
 			if !fail {
 				w.RootSucc[n] = true
+				if w.Transfer != nil {
+					if w.RootSuccStates[n] == nil {
+						w.RootSuccStates[n] = map[string]bool{}
+					}
+					w.RootSuccStates[n][s.st] = true
+				}
 			}
 		}
 		if w.Visit != nil && w.Visit(n) {
@@ -340,6 +361,9 @@ func (w *IPWalk) afterInstr(key ipKey, s ipState, push func(ipKey, ipState), ski
 			if !s.fx.feasible(s.b, k) {
 				continue
 			}
+			if s.ix != "" && !tableFeasible(s.ctx, s.ix, s.b, k) {
+				continue
+			}
 			if w.FailedIsNot != nil {
 				// an error known to be a failure on this path is compared with a sentinel the client rules out
 				if c := edgeCond(s.b, k); c != nil && c.X != nil && c.Y != nil {
@@ -368,11 +392,11 @@ func (w *IPWalk) afterInstr(key ipKey, s ipState, push func(ipKey, ipState), ski
 			if w.EdgeTransfer != nil {
 				st = w.EdgeTransfer(s.ctx, s.b, k, st)
 			}
-			push(key, ipState{ctx: s.ctx, b: succ, i: 0, failed: s.failed, okSite: s.okSite, st: st, fx: s.fx.afterEdge(s.b, k)})
+			push(key, ipState{ctx: s.ctx, b: succ, i: 0, failed: s.failed, okSite: s.okSite, st: st, fx: s.fx.afterEdge(s.b, k), ix: tableEdge(s.ctx, s.ix, s.b, k)})
 		}
 		return
 	case *ssa.Jump:
-		push(key, ipState{ctx: s.ctx, b: s.b.Succs[0], i: 0, failed: s.failed, okSite: s.okSite, st: s.st, fx: s.fx.afterEdge(s.b, 0)})
+		push(key, ipState{ctx: s.ctx, b: s.b.Succs[0], i: 0, failed: s.failed, okSite: s.okSite, st: s.st, fx: s.fx.afterEdge(s.b, 0), ix: tableEdge(s.ctx, s.ix, s.b, 0)})
 		return
 	case *ssa.Panic:
 		return
@@ -381,7 +405,7 @@ func (w *IPWalk) afterInstr(key ipKey, s ipState, push func(ipKey, ipState), ski
 	if skipCallEntry && w.StartFailed {
 		nfx = s.fx // the start call's assumed failure is a fact about the value it just produced
 	}
-	push(key, ipState{ctx: s.ctx, b: s.b, i: s.i + 1, failed: s.failed, okSite: s.okSite, st: s.st, fx: nfx})
+	push(key, ipState{ctx: s.ctx, b: s.b, i: s.i + 1, failed: s.failed, okSite: s.okSite, st: s.st, fx: nfx, ix: s.ix})
 }
 
 // valueOfCall reports whether v is (an extract of) the result of call instruction site.
@@ -392,6 +416,9 @@ func valueOfCall(v ssa.Value, site ssa.Instruction) bool {
 
 func (w *IPWalk) enter(key ipKey, s ipState, site ssa.Instruction, cc *ssa.CallCommon, push func(ipKey, ipState)) bool {
 	f, mc, mcCtx := w.ResolveFunc(s.ctx, cc)
+	if f == nil && !cc.IsInvoke() {
+		f, mc, mcCtx = tableCallee(s.ctx, s.ix, cc.Value)
+	}
 	if !inModule(f) || (w.NoInline != nil && w.NoInline(f)) {
 		return false
 	}
@@ -399,13 +426,17 @@ func (w *IPWalk) enter(key ipKey, s ipState, site ssa.Instruction, cc *ssa.CallC
 		w.TooDeep = true
 		return false
 	}
+	occ := 0
 	for x := s.ctx; x != nil; x = x.Parent {
 		if x.Fn == f {
-			return false // recursion: not expected in this module
+			occ++
 		}
 	}
+	if occ >= 2 {
+		return false // recursion (a small generic helper such as a step runner may legitimately be active twice)
+	}
 	k := w.child(s.ctx, site, f, mc, mcCtx)
-	push(key, ipState{ctx: k, b: f.Blocks[0], i: 0, st: s.st, fx: s.fx})
+	push(key, ipState{ctx: k, b: f.Blocks[0], i: 0, st: s.st, fx: s.fx, ix: s.ix})
 	return true
 }
 
@@ -446,7 +477,7 @@ func (w *IPWalk) enterDeferred(key ipKey, s ipState, defers []*ssa.Defer, idx in
 		}
 		k := w.childKeyed(s.ctx, deferKey{s.b.Instrs[s.i], d}, d, f, mc, mcCtx)
 		deferFrames[k] = &deferFrame{defers: defers, idx: idx, at: s}
-		push(key, ipState{ctx: k, b: f.Blocks[0], i: 0, st: s.st, fx: s.fx})
+		push(key, ipState{ctx: k, b: f.Blocks[0], i: 0, st: s.st, fx: s.fx, ix: s.ix})
 		return true, s.st
 	}
 	return false, s.st
@@ -544,7 +575,7 @@ func (w *IPWalk) ret(key ipKey, s ipState, r *ssa.Return, push func(ipKey, ipSta
 		for i, in := range b.Instrs {
 			if in == ssa.Instruction(site) {
 				mk := func(failed, ok bool) ipState {
-					ns := ipState{ctx: ctx.Parent, b: b, i: i + 1, st: s.st, fx: s.fx.dropCallResults(site)}
+					ns := ipState{ctx: ctx.Parent, b: b, i: i + 1, st: s.st, fx: s.fx.dropCallResults(site), ix: s.ix}
 					var en *bool
 					if failed {
 						ns.failed = site
@@ -583,7 +614,7 @@ func (w *IPWalk) ret(key ipKey, s ipState, r *ssa.Return, push func(ipKey, ipSta
 		at := fr.at
 		at.st = s.st
 		if entered, st := w.enterDeferred(key, at, fr.defers, fr.idx+1, push); !entered {
-			push(key, ipState{ctx: at.ctx, b: at.b, i: at.i + 1, failed: at.failed, okSite: at.okSite, st: st, fx: s.fx})
+			push(key, ipState{ctx: at.ctx, b: at.b, i: at.i + 1, failed: at.failed, okSite: at.okSite, st: st, fx: s.fx, ix: s.ix})
 		}
 	}
 }
